@@ -336,6 +336,13 @@ func cmdCheck(args []string) int {
 	var lines []string
 	knownHit := map[string][]failure{}
 	var rest []failure
+	// obligations of the code first; reports about the contract text itself (unused contract, specification error) after them
+	sort.SliceStable(fails, func(i, j int) bool {
+		meta := func(f failure) bool {
+			return f.Ob.Kind == "engine" || strings.HasSuffix(f.FullName, "/unused_contract") || strings.HasSuffix(f.FullName, "/spec_error")
+		}
+		return !meta(fails[i]) && meta(fails[j])
+	})
 	for _, f := range fails {
 		matched := ""
 		for _, k := range known.Open {
